@@ -137,13 +137,16 @@ def lock_rule(prog: Program, rep, RID: str):
 
 def multiplicity_guard(prog: Program, rep, RID: str):
     f = prog.own_method("AbstractWalkModelDiGraph", "_apply_safety_optimizations")
-    sites = [s for s in val.sites_in(f) if re.search(r"\bm\b", s["test"]) and "1" in s["test"]]
+    # the multiplicity is the value of the Counter item the loop binds: the site is `multiplicity != 1` inside that loop
+    sites = [s for s in val.sites_in(f) if re.fullmatch(r"not \(EQ0\[-1 \+ L\d_\d\]\)", s["test"]) and "Counter(" in (s["loop"] or "")]
     key = "AbstractWalkModelDiGraph._apply_safety_optimizations:m!=1-guard"
     if not sites:
         rep.violation(RID, key, "a non-SCC edge of a safe sequence is fixed to 1 without the `m != 1 -> ValueError` test", f.loc())
         return
     s = sites[0]
-    ok_ctx = any("is_scc_edge" in c and c.startswith("not") for c in s["context"])
+    from sa import boolnf as B
+    scc = [a for a in B.atoms_of(s["_ctx"]) if "is_scc_edge(" in a]
+    ok_ctx = bool(scc) and B.implies(s["_ctx"], B.mk_not(B.atom(scc[0])))
     ok, why = val.dominance(prog, f, s)
     if ok_ctx and ok and s["exc"] == "ValueError":
         rep.ok(RID, key, "on the non-SCC branch every iteration passes `m != 1 -> ValueError` before fixing the variable to 1", f.loc(s["_node"]),
